@@ -150,35 +150,51 @@ pub fn extract_parametrize_indirect_fixtures(
         return vec![];
     };
 
-    let Some(first_arg) = call.args.first() else {
+    // argnames: the first positional argument or the `argnames=` keyword
+    let Some(argnames) = call.args.first().or_else(|| {
+        call.keywords.iter().find_map(|kw| {
+            kw.arg
+                .as_ref()
+                .is_some_and(|a| a.as_str() == "argnames")
+                .then_some(&kw.value)
+        })
+    }) else {
         return vec![];
     };
 
-    let Expr::Constant(param_const) = first_arg else {
-        return vec![];
+    // Every name with the range of its own string literal (callers strip one quote
+    // character from either end of a range)
+    let string_elements = |elts: &[Expr]| -> Vec<(String, rustpython_parser::text_size::TextRange)> {
+        elts.iter()
+            .filter_map(|elt| match elt {
+                Expr::Constant(c) => match &c.value {
+                    rustpython_parser::ast::Constant::Str(s) => Some((s.to_string(), c.range)),
+                    _ => None,
+                },
+                _ => None,
+            })
+            .collect()
     };
 
-    let rustpython_parser::ast::Constant::Str(param_str) = &param_const.value else {
-        return vec![];
-    };
-
-    let param_names: Vec<&str> = param_str.split(',').map(|s| s.trim()).collect();
-
-    match indirect {
-        Expr::Constant(c) => {
-            if matches!(c.value, rustpython_parser::ast::Constant::Bool(true)) {
-                // Each name gets its own span inside the argnames string (callers strip one
-                // quote character from either end of a range). That is only possible for a
-                // plain one-quote literal without escapes; otherwise fall back to the
-                // range of the whole string.
-                let literal_len = param_const.range.end().to_usize()
-                    - param_const.range.start().to_usize();
-                if literal_len != param_str.len() + 2 {
-                    return param_names
-                        .into_iter()
-                        .map(|name| (name.to_string(), param_const.range))
-                        .collect();
-                }
+    // The parametrized names: "a, b" in one string, or a tuple / list of strings
+    let all_names: Vec<(String, rustpython_parser::text_size::TextRange)> = match argnames {
+        Expr::Constant(param_const) => {
+            let rustpython_parser::ast::Constant::Str(param_str) = &param_const.value else {
+                return vec![];
+            };
+            // Each name gets its own span inside the argnames string. That is only possible
+            // for a plain one-quote literal without escapes; otherwise fall back to the
+            // range of the whole string.
+            let literal_len =
+                param_const.range.end().to_usize() - param_const.range.start().to_usize();
+            if literal_len != param_str.len() + 2 {
+                param_str
+                    .split(',')
+                    .map(|s| s.trim())
+                    .filter(|name| !name.is_empty())
+                    .map(|name| (name.to_string(), param_const.range))
+                    .collect()
+            } else {
                 let content_start = param_const.range.start().to_u32() + 1;
                 let mut offset = 0usize;
                 let mut result = Vec::new();
@@ -197,23 +213,32 @@ pub fn extract_parametrize_indirect_fixtures(
                     }
                     offset += part.len() + 1;
                 }
-                return result;
+                result
             }
         }
+        Expr::Tuple(tuple) => string_elements(&tuple.elts),
+        Expr::List(list) => string_elements(&list.elts),
+        _ => return vec![],
+    };
+
+    match indirect {
+        // indirect=True: every parametrized name is a fixture
+        Expr::Constant(c) => {
+            if matches!(c.value, rustpython_parser::ast::Constant::Bool(true)) {
+                return all_names;
+            }
+        }
+        // indirect=["a"] / indirect=("a",): the names listed there
         Expr::List(list) => {
-            return list
-                .elts
-                .iter()
-                .filter_map(|elt| {
-                    if let Expr::Constant(c) = elt {
-                        if let rustpython_parser::ast::Constant::Str(s) = &c.value {
-                            if param_names.contains(&s.as_str()) {
-                                return Some((s.to_string(), c.range));
-                            }
-                        }
-                    }
-                    None
-                })
+            return string_elements(&list.elts)
+                .into_iter()
+                .filter(|(name, _)| all_names.iter().any(|(n, _)| n == name))
+                .collect();
+        }
+        Expr::Tuple(tuple) => {
+            return string_elements(&tuple.elts)
+                .into_iter()
+                .filter(|(name, _)| all_names.iter().any(|(n, _)| n == name))
                 .collect();
         }
         _ => {}
